@@ -25,6 +25,7 @@ type Program struct {
 	dryMemo map[*ssa.Function]map[*ssa.BasicBlock]map[string]bool
 	dryOld  map[*ssa.Function]map[string]bool // components a function may write on pre-existing objects
 	dryOldB map[*ssa.Function]map[*ssa.BasicBlock]map[string]bool
+	autoInl map[*ssa.Function]bool
 	drySorts map[string]string
 	dryStructs map[string]types.Type
 	repo    string
@@ -56,7 +57,7 @@ func loadProgram(repo string, patterns []string, specDir string) (*Program, erro
 	}
 	prog, spkgs := ssautil.Packages(pkgs, ssa.GlobalDebug|ssa.InstantiateGenerics)
 	p := &Program{pkgs: pkgs, prog: prog, spkgs: spkgs, cs: newContractSet(), funcs: map[string]*ssa.Function{},
-		dryMemo: map[*ssa.Function]map[*ssa.BasicBlock]map[string]bool{}, dryOld: map[*ssa.Function]map[string]bool{}, dryOldB: map[*ssa.Function]map[*ssa.BasicBlock]map[string]bool{}, drySorts: map[string]string{}, dryStructs: map[string]types.Type{}, repo: repo}
+		dryMemo: map[*ssa.Function]map[*ssa.BasicBlock]map[string]bool{}, dryOld: map[*ssa.Function]map[string]bool{}, dryOldB: map[*ssa.Function]map[*ssa.BasicBlock]map[string]bool{}, autoInl: map[*ssa.Function]bool{}, drySorts: map[string]string{}, dryStructs: map[string]types.Type{}, repo: repo}
 	if len(pkgs) > 0 {
 		p.fset = pkgs[0].Fset
 	}
@@ -240,6 +241,39 @@ func (p *Program) shouldInline(fn *ssa.Function) bool {
 		return fc.Inline
 	}
 	return false
+}
+
+// autoInlinable: a loaded, uncontracted, small function with an acyclic control-flow graph and no defer/go/select.
+func (p *Program) autoInlinable(fn *ssa.Function) bool {
+	if v, ok := p.autoInl[fn]; ok {
+		return v
+	}
+	ok := func() bool {
+		if _, has := p.cs.Funcs[funcKey(fn)]; has {
+			return false
+		}
+		if len(fn.Blocks) == 0 || len(fn.Blocks) > 10 || fn.Pkg == nil || !p.isLoaded(fn) || fn.Recover != nil {
+			return false
+		}
+		n := 0
+		for _, b := range fn.Blocks {
+			for _, s := range b.Succs {
+				if s.Index <= b.Index {
+					return false // possible back edge
+				}
+			}
+			for _, in := range b.Instrs {
+				n++
+				switch in.(type) {
+				case *ssa.Defer, *ssa.Go, *ssa.Select, *ssa.RunDefers, *ssa.MakeClosure:
+					return false
+				}
+			}
+		}
+		return n <= 150
+	}()
+	p.autoInl[fn] = ok
+	return ok
 }
 
 // dryWrittenFor runs a throw-away symbolic execution of fn to learn which heap
